@@ -14,10 +14,12 @@
 package simrt
 
 import (
+	"context"
 	"fmt"
 	"runtime"
 	"sort"
 	"sync"
+	"sync/atomic"
 )
 
 // Draw streams.
@@ -727,6 +729,27 @@ func Block(site int, cond func() bool) {
 			defer raceEnable()
 			return cond()
 		})
+	}
+}
+
+// AfterFunc replaces context.AfterFunc: the callback becomes a scheduled task
+// that is parked until ctx is done (or stop is called), instead of a goroutine
+// the standard library would start behind the simulator's back.
+func AfterFunc(site int, ctx context.Context, f func()) (stop func() bool) {
+	if cur() == nil {
+		return context.AfterFunc(ctx, f)
+	}
+	var state atomic.Int32 // 0 armed, 1 stopped, 2 fired
+	Go(site, func() {
+		Block(site, func() bool { return state.Load() != 0 || ctx.Err() != nil })
+		if state.CompareAndSwap(0, 2) {
+			f()
+		}
+	})
+	return func() bool {
+		ok := state.CompareAndSwap(0, 1)
+		noteProgress()
+		return ok
 	}
 }
 
